@@ -51,6 +51,7 @@ type result struct {
 	Got   absObj `json:"got"`
 	Err   string `json:"err,omitempty"`
 	Alias bool   `json:"alias,omitempty"` // the stored ("old") object was modified by the operation
+	Shape int    `json:"shape,omitempty"` // label/annotation concretisation shape under which the answer deviated
 }
 
 var variant int // concretisation variant (which nested field carries the spec/status difference)
@@ -135,23 +136,58 @@ func rlStatusBack(s proxyv1alpha1.RateLimitStatus) string {
 	return "?"
 }
 
+// label / annotation maps: the abstract values x0 (none), x1, x2 are concretised in several SHAPES (mshape); two different
+// abstract values are always semantically different maps, x0 is "no entries" (nil or empty)
+var mshape int
+
+const nMapShapes = 7
+
+func mapShapes(key string) (m0, m1, m2 map[string]string) {
+	switch mshape {
+	case 1: // marker keys swapped, empty values
+		return nil, map[string]string{key: ""}, map[string]string{key + "b": ""}
+	case 2: // a key with an empty value added
+		return nil, map[string]string{key: "1"}, map[string]string{key: "1", key + "b": ""}
+	case 3: // renamed key, same value
+		return map[string]string{}, map[string]string{key: "1"}, map[string]string{key + "b": "1"}
+	case 4: // value emptied
+		return map[string]string{}, map[string]string{key: "1"}, map[string]string{key: ""}
+	case 5: // two keys, values swapped
+		return nil, map[string]string{key: "1", key + "b": "2"}, map[string]string{key: "2", key + "b": "1"}
+	case 6: // valued entry replaced by an empty-valued one under another key
+		return nil, map[string]string{key: "x"}, map[string]string{key + "b": ""}
+	}
+	return nil, map[string]string{key: "1"}, map[string]string{key: "2"}
+}
+func cp(m map[string]string) map[string]string {
+	if m == nil {
+		return nil
+	}
+	o := map[string]string{}
+	for k, v := range m {
+		o[k] = v
+	}
+	return o
+}
 func mapOf(v string, key string) map[string]string {
+	m0, m1, m2 := mapShapes(key)
 	switch v[1:] {
 	case "1":
-		return map[string]string{key: "1"}
+		return cp(m1)
 	case "2":
-		return map[string]string{key: "2"}
+		return cp(m2)
 	}
-	return nil
+	return cp(m0)
 }
 func mapBack(m map[string]string, prefix, key string) string {
+	_, m1, m2 := mapShapes(key)
 	if len(m) == 0 {
 		return prefix + "0"
 	}
-	if len(m) == 1 && m[key] == "1" {
+	if reflect.DeepEqual(m, m1) {
 		return prefix + "1"
 	}
-	if len(m) == 1 && m[key] == "2" {
+	if reflect.DeepEqual(m, m2) {
 		return prefix + "2"
 	}
 	return "?"
@@ -236,6 +272,34 @@ func setRV(o runtime.Object, rv string) {
 	acc.SetUID("uid-1")
 }
 
+func oneCase(c tcase) result {
+	r := result{ID: c.ID}
+	var stored runtime.Object
+	var storedAbs absObj
+	if c.Op != "create" {
+		if err := json.Unmarshal(c.Stored, &storedAbs); err != nil {
+			r.Err = "harness: " + err.Error()
+			return r
+		}
+		stored = concretise(c.Kind, storedAbs)
+		setRV(stored, "10")
+	}
+	sub := concretise(c.Kind, c.Sub)
+	if c.Op != "create" {
+		setRV(sub, "10")
+	}
+	got, err := apply(c.Kind, c.Op, stored, sub)
+	if err != nil {
+		r.Err = err.Error()
+	} else {
+		r.Got = project(c.Kind, got)
+		if stored != nil && project(c.Kind, stored) != storedAbs {
+			r.Alias = true
+		}
+	}
+	return r
+}
+
 func main() {
 	proxyinstall.Install(apiserverscheme.Scheme)
 	if len(os.Args) < 2 {
@@ -254,29 +318,18 @@ func main() {
 				return err
 			}
 			variant = c.ID
-			r := result{ID: c.ID}
-			var stored runtime.Object
-			var storedAbs absObj
-			if c.Op != "create" {
-				if err := json.Unmarshal(c.Stored, &storedAbs); err != nil {
-					return err
-				}
-				stored = concretise(c.Kind, storedAbs)
-				setRV(stored, "10")
-			}
-			sub := concretise(c.Kind, c.Sub)
-			if c.Op != "create" {
-				setRV(sub, "10")
-			}
-			got, err := apply(c.Kind, c.Op, stored, sub)
-			if err != nil {
-				r.Err = err.Error()
-			} else {
-				r.Got = project(c.Kind, got)
-				if stored != nil && project(c.Kind, stored) != storedAbs {
-					r.Alias = true
+			var r result
+			for mshape = 0; mshape < nMapShapes; mshape++ {
+				rs := oneCase(c)
+				if mshape == 0 {
+					r = rs
+				} else if rs != r { // every shape must give the same abstract answer; report the one that does not
+					r = rs
+					r.Shape = mshape
+					break
 				}
 			}
+			mshape = 0
 			w.Write(r)
 			return nil
 		})
@@ -296,6 +349,7 @@ func main() {
 		for id := 1; id <= n; id++ {
 			kind := pick("uc", "rlc", "rls")
 			variant = rng.Intn(8)
+			mshape = rng.Intn(nMapShapes)
 			type ev struct {
 				Op    string `json:"op"`
 				Sub   absObj `json:"sub"`
